@@ -293,6 +293,7 @@ var c20sGasBound uint64
 
 // >= 0: only this operand (counted from the top of the stack) is symbolic, the others are zero
 var c20sOnlySymbolic = -1
+var c20sAlsoSymbolic = -1
 
 func c20sRun(op OpCode, depth int, readOnly bool) {
 	evm := &EVM{Issued: make(chan bool, 1), StateDB: &c20sWorld{}}
@@ -309,7 +310,7 @@ func c20sRun(op OpCode, depth int, readOnly bool) {
 	evm.interpreter = in
 	var code []byte
 	for i := 0; i < depth; i++ {
-		if c20sOnlySymbolic >= 0 && depth-1-i != c20sOnlySymbolic {
+		if c20sOnlySymbolic >= 0 && depth-1-i != c20sOnlySymbolic && depth-1-i != c20sAlsoSymbolic {
 			code = append(code, byte(PUSH1), 0)
 			continue
 		}
@@ -433,6 +434,26 @@ func H_C20_static_frames_write_nothing() {
 	}
 	c20sRun(op, c20sNeed(op), true)
 	c20sOnlySymbolic = -1
+}
+
+// the gas handed to a sub-frame: the requested gas (any word) and, where there is one, the value (any
+// word) are symbolic, the memory regions empty. The frame entry points are stubs that hand back at
+// most what they were given; asserted inside them: what is forwarded is at most what the frame had
+// (plus the stipend of a value transfer), and at the end the frame has at most the gas it was given.
+//verif:opt unwind=300 budget_s=900 thorough.budget_s=3000 split=6 big_bv=1 name_terms=6 max_split=300
+func H_C20_gas_forwarded_to_a_sub_frame_is_gas_the_frame_had() {
+	if !verifThorough() {
+		return // about five minutes on its own: thorough tier only
+	}
+	ops := []OpCode{CALL, CALLCODE, DELEGATECALL, STATICCALL, CREATE, CREATE2}
+	op := ops[verifCase(len(ops))]
+	c20sOnlySymbolic, c20sAlsoSymbolic = 0, -1
+	if op == CALL || op == CALLCODE {
+		c20sAlsoSymbolic = 2
+	}
+	c20sRun(op, c20sNeed(op), false)
+	verifAssert(c20sFrames <= 1, "one-instruction-starts-at-most-one-frame")
+	c20sOnlySymbolic, c20sAlsoSymbolic = -1, -1
 }
 
 func c20sIndex(ops []OpCode, op OpCode) int {
